@@ -377,6 +377,18 @@ def check(ctx):
             r = results[f.qualname]
             st_ = [e for e in r.of_kind("setattr", "delattr")
                    if e.data["base"] is tm.param(f.params[0])]
+            if st_:
+                cp = _cache_protocol(prog, results, f, st_)
+                if cp is None:
+                    ctx.unrecognised(
+                        "C08.7", f, f"{f.qualname} stores "
+                        f"{st_[0].data['name']} on the object in a form "
+                        f"that is not a recognised cache",
+                        key=f"C08.7:{f.qualname}:cached")
+                else:
+                    ctx.ob("C08.7", f, cp[0], cp[1],
+                           key=f"C08.7:{f.qualname}:cached")
+                continue
             ctx.ob("C08.7", f, not st_,
                    f"{f.qualname} is computed from the views on demand "
                    f"(nothing cached that could go stale)" if not st_ else
@@ -425,6 +437,98 @@ def check(ctx):
                    key=f"C08.4:init:{n}", value=fmt(e.data["value"]))
 
 
+def _cache_protocol(prog, results, f, st_):
+    """A derived quantity that is stored on the object the first time it is
+    asked for is still "computed from the current state" iff every operation
+    that rebinds a view it was computed from drops the stored value
+    afterwards.  (ok, message) — None if the storing idiom is not the
+    fill-when-absent cache this argument is about."""
+    import ast as _ast
+    from ..lib import implies
+    selfp = tm.param(f.params[0])
+    names = {e.data["name"] for e in st_}
+    if len(names) != 1:
+        return None
+    c = names.pop()
+    if c in VIEWS or c in ("timestamps", "meta"):
+        return None
+
+    def has(obj):
+        return tm.call(tm.glob("builtins.hasattr"), (obj, const(c)), ())
+    sets = [e for e in st_ if e.kind == "setattr"]
+    if not sets or len(sets) != len(st_):
+        return None
+    for e in sets:
+        if tm.fold(e.live, lambda t: True if t is has(selfp) else None) \
+                is not False:
+            return None          # not a fill-when-absent store
+    v = sets[0].data["value"]
+    deps = set()
+    for x in v.walk():
+        if x.op == "attr" and x.args[0] is selfp:
+            deps |= {"positions_xyz": {P, M}, P: {P},
+                     "orientations_quat_wxyz": {Q, M}, Q: {Q},
+                     "poses_se3": {M, P, Q}, M: {M},
+                     "timestamps": {"timestamps"}}.get(x.args[1], set())
+    if not deps:
+        return None
+    # operations that always drop the cache (helpers like _flush_...() that
+    # were added with it are looked through by the interpreter anyway)
+    def drops(r, sp):
+        return [e for e in r.of_kind("delattr")
+                if e.data["base"] is sp and e.data["name"] == c]
+    flushers = set()
+    methods = [m for cq in (PATH, TRAJ)
+               for m in prog.classes[cq].methods.values()
+               if m is not f and m.name != "__init__" and not m.is_property
+               and m.qualname in results]
+    for m in methods:
+        sp = tm.param(m.params[0]) if m.params else None
+        if sp is None:
+            continue
+        if any(tm.fold(d.live, lambda t: True if t is has(sp) else None)
+               is True for d in drops(results[m.qualname], sp)):
+            flushers.add(m.name)
+    for m in methods:
+        if not m.params:
+            continue
+        sp = tm.param(m.params[0])
+        r = results[m.qualname]
+        W = [e for e in r.of_kind("setattr", "delattr")
+             if e.data["base"] is sp and e.data["name"] in deps]
+        if not W:
+            continue
+        D = [(d, True) for d in drops(r, sp)]
+        reads_cache = any(
+            isinstance(n_, _ast.Attribute) and n_.attr == f.name
+            for n_ in _ast.walk(m.node))
+        for e in r.of_kind("call"):
+            nm = (e.data.get("name") or "").rsplit(".", 1)[-1]
+            rc = e.data.get("recv")
+            if nm in flushers and rc is not None and (
+                    rc is sp or rc.op == "super") and not e.data.get(
+                        "inlined"):
+                D.append((e, reads_cache))
+        for w in W:
+            ok = False
+            for d, ordered in D:
+                if ordered and d.idx < w.idx:
+                    continue
+                if implies(w.live, d.live, given=lambda t: True
+                           if t is has(sp) else None) is True:
+                    ok = True
+                    break
+            if not ok:
+                return (False,
+                        f"{f.qualname} caches its result in {c}, but "
+                        f"{m.qualname} rebinds {w.data['name']} at "
+                        f"{w.where} without dropping {c} afterwards: the "
+                        f"next call returns the value of the old poses")
+    return (True, f"{f.qualname} caches its result in {c}; every operation "
+                  f"that rebinds {sorted(deps)} drops it afterwards "
+                  f"({len(methods)} methods checked)")
+
+
 def _is_bool_param(m: Function, p: str) -> bool:
     import ast
     d = m.defaults().get(p)
@@ -448,9 +552,28 @@ def _derived(ctx, prog):
     # views are read through the lazy getters: do not inline them here
     plain = Interp(prog, inline=lambda fn: False, inline_properties=False)
 
+    # (the definitions are judged where a private cache of the result — see
+    # the :cached instances — has not been filled yet; a copy of the result
+    # handed out instead of the stored array is the same values)
+    def no_cache(t: T):
+        if is_call_to(t, "builtins.hasattr") and len(t.args[1]) == 2 and \
+                t.args[1][0] is selfp and tm.is_const(t.args[1][1]) and \
+                t.args[1][1].args[1] not in VIEWS:
+            return False
+        return None
+    plain = Interp(prog, inline=lambda fn: False, inline_properties=False,
+                   assume=no_cache)
+
     def final(fq):
         f = prog.func(fq)
-        return f, plain.run(f).ret
+        ret = plain.run(f).ret
+        for _ in range(3):
+            if is_call_to(ret, ".copy") and not ret.args[1]:
+                ret = tm.method_recv(ret)
+            elif is_call_to(ret, "numpy.copy", "copy.copy",
+                            "copy.deepcopy") and len(ret.args[1]) == 1:
+                ret = ret.args[1][0]
+        return f, ret
     f, ret = final(f"{PATH}.path_length")
     core = ret.args[1][0] if is_call_to(ret, "builtins.float") and \
         ret.args[1] else ret
